@@ -56,11 +56,47 @@ let parse_op (w : ostring list) : op option =
   | ["sets"; i; h] -> Some (SetStruct (z_of_dec i, bytes_of_hex h))
   | ["pops"; n] -> Some (PopStruct (n_of_int (int_of_string n)))
   | _ -> None
+(* ---- gc lines (same protocol as probes/gc_probe.c, with addresses instead of handles):
+     gnew | galloc <addr> <size> <type> | gretain <addr> | gretainsafe <addr> | grelease <addr> | gmanaged <addr> | gcollect *)
+let gc_state : gc ref = ref gc_empty
+let gc_dead = ref false
+let str_gc (g : gc) =
+  let ids = List.sort_uniq compare (List.map int_of_n g.g_set) in
+  Printf.sprintf " | n=%s use=%s list=%s set=%s%s" (string_of_int (int_of_n g.g_count)) (string_of_int (int_of_n g.g_usage))
+    (if g.g_list = [] then "-" else String.concat "," (List.map (fun p ->
+        let rc = (let rec look h = match h with [] -> "?" | (q, x) :: r -> if q = p then string_of_int (int_of_n x.h_rc) else look r in look g.g_heap) in
+        string_of_int (int_of_n p) ^ ":" ^ rc) g.g_list))
+    (if ids = [] then "-" else String.concat "," (List.map string_of_int ids))
+    (if ginvb g then "" else " GINV-BROKEN")
+let gc_line (w : ostring list) : bool =
+  let run o =
+    if !gc_dead then print_string "skip\n" else
+    (match gstep rt_gc_header !gc_state o with
+     | GOk (g', x) -> gc_state := g';
+         print_string ((match x with GUnit -> "unit" | GBool b -> if b then "bool 1" else "bool 0" | GPtr p -> "ptr " ^ string_of_int (int_of_n p)) ^ str_gc g' ^ "\n")
+     | GAbort -> gc_dead := true; print_string "abort\n"
+     | GCrash -> gc_dead := true; print_string "crash\n"
+     | GBadEnv -> gc_dead := true; print_string "badenv\n") in
+  match w with
+  | ["gnew"] -> gc_state := gc_empty; gc_dead := false; print_string "reset\n"; true
+  | ["galloc"; a; s; t] -> run (GAlloc (n_of_int (int_of_string a), n_of_int (int_of_string s), n_of_int (int_of_string t))); true
+  | ["gretain"; a] -> run (GRetain (n_of_int (int_of_string a))); true
+  | ["gretainsafe"; a] ->
+      let p = n_of_int (int_of_string a) in
+      (match gstep rt_gc_header !gc_state (GIsManaged p) with
+       | GOk (_, GBool true) -> run (GRetain p)
+       | _ -> if !gc_dead then print_string "skip\n" else print_string ("unit" ^ str_gc !gc_state ^ "\n")); true
+  | ["grelease"; a] -> run (GRelease (n_of_int (int_of_string a))); true
+  | ["gmanaged"; a] -> run (GIsManaged (n_of_int (int_of_string a))); true
+  | ["gcollect"] -> run GCollect; true
+  | _ -> false
+
 let dyn_main () =
   let st : dyn option ref = ref None in
   iter_lines (fun line ->
     match words line with
     | [] -> ()
+    | w when gc_line w -> ()
     | ["new"; k] -> let d = dyn_new rt_params (kind_of_code (int_of_string k)) in
         st := Some d; print_string ("unit" ^ str_state d ^ "\n")
     | ["newcap"; k; c] ->
